@@ -42,7 +42,7 @@ contract(CM + 'update_all_cluster_statistics', props=['C12', 'C13', 'C09', 'C19'
          requires=["wf(model)", "len(model._point_labels) == training_data.shape[0]",
                    # every cluster owns at least one point (the phase before -- repopulation -- guarantees >= 2 from round 2 on)
                    "forall(0, len(model.clusters), lambda k: len(model.clusters[k]._member_points) > 0)"],
-         ghost={'kind:cluster_members': 'pdict[int]'},
+         ghost={'kind:cluster_members': 'pdict[int]', 'cumulative_posts': True},
          ensures=["fresh(result)", "fresh(result.clusters)", "len(result.clusters) == len(model.clusters)",
                   "same(result._point_labels, model._point_labels)", "same(result.arguments, model.arguments)",
                   ("each-cluster-fitted-to-exactly-its-own-windows",
